@@ -25,8 +25,8 @@ ENCODED = ["twisted.conch.ssh.channel:SSHChannel.write", "twisted.conch.ssh.chan
            "twisted.conch.ssh.connection:SSHConnection.ssh_CHANNEL_EXTENDED_DATA",
            "twisted.conch.ssh.connection:SSHConnection.adjustWindow",
            "twisted.conch.ssh.connection:SSHConnection.sendClose"]
-BOUNDS = {"quick": {"pk": 2, "hist": 3, "d": 3, "cap": 1 << 20},
-          "thorough": {"pk": 3, "hist": 4, "d": 4, "cap": 1 << 20}}
+BOUNDS = {"quick": {"pk": 2, "hpk": 1, "hist": 3, "d": 3, "cap": 1 << 20},
+          "thorough": {"pk": 3, "hpk": 2, "hist": 4, "d": 4, "cap": 1 << 20}}
 B = {}
 BOUNDS_TEXT = ("sender, inductive steps: remote window any int >= 0, max packet any int >= 1, buffered normal data "
                "and <= 2 buffered extended entries of any length <= pk*maxpacket (<= cap = 1 MiB), one operation "
@@ -404,7 +404,7 @@ def history(w0: int, m: int, ops: List[int], ns: List[int]) -> bool:
     pre: m >= 1 and 0 <= w0 <= B['cap'] and m <= B['cap']
     pre: 1 <= len(ops) <= B['hist'] and len(ns) == len(ops)
     pre: all(0 <= o <= 4 for o in ops)
-    pre: all(0 <= n <= B['pk'] * m and n <= B['cap'] for n in ns)
+    pre: all(0 <= n <= B['hpk'] * m and n <= B['cap'] for n in ns)
     post: _
     """
     rope.reset()
